@@ -259,7 +259,7 @@ IDCOL = "GetColumn(GetStart(Identifier(ctx)))"
 NAMEX = 'ite(Identifier(ctx) != nil, GetText(Identifier(ctx)), "")'
 for fld, ex in [("Position.StartLine", "GetLine(GetStart(ctx))"), ("Position.StartLinePosition", IDCOL), ("Position.StopLine", "GetLine(GetStop(ctx))"),
                 ("Position.StopLinePosition", IDCOL + " + len(" + NAMEX + ")"), ("Name", NAMEX), ("ReturnType", "GetText(TypeTypeOrVoid(ctx))")]:
-    row(props=["C05", "C02", "C01"], func=FL + "(JavaFullListener).EnterMethodDeclaration", params=["s", "ctx"], kind="callarg", callee=FL + "buildMethodParameters", arg=1, field=fld, expr=ex,
+    row(props=["C05", "C02", "C01"], func=FL + "(JavaFullListener).EnterMethodDeclaration", params=["s", "ctx"], kind="callarg", callee=FL + "buildMethodParameters:1|" + FL + "updateMethod:0", arg=1, field=fld, expr=ex,
         what="declaration entry: " + fld)
 for fld, ex in [("Position.StartLine", "GetLine(GetStart(ctx))"), ("Position.StartLinePosition", "GetColumn(GetStart(ctx))"), ("Position.StopLine", "GetLine(GetStop(ctx))"),
                 ("Position.StopLinePosition", "GetColumn(GetStart(ctx)) + len(callee)")]:
@@ -372,7 +372,7 @@ IIDCOL = "GetColumn(GetStart(Identifier(%s)))" % IBD
 INAME = "GetText(Identifier(%s))" % IBD
 for fld, ex in [("Position.StartLine", "GetLine(GetStart(ctx))"), ("Position.StartLinePosition", IIDCOL), ("Position.StopLine", "GetLine(GetStop(ctx))"),
                 ("Position.StopLinePosition", IIDCOL + " + len(" + INAME + ")"), ("Name", INAME)]:
-    row(props=["C05", "C01"], func=FL + "(JavaFullListener).EnterInterfaceMethodDeclaration", params=["s", "ctx"], kind="callarg", callee=FL + "buildMethodParameters", arg=1, field=fld, expr=ex,
+    row(props=["C05", "C01"], func=FL + "(JavaFullListener).EnterInterfaceMethodDeclaration", params=["s", "ctx"], kind="callarg", callee=FL + "buildMethodParameters:1|" + FL + "updateMethod:0", arg=1, field=fld, expr=ex,
         what="interface method entry, like a class method's: " + fld)
 MRID = "Identifier(ctx)"
 for fld, ex in [("Position.StartLine", "GetLine(GetStart(%s))" % MRID), ("Position.StartLinePosition", "GetColumn(GetStart(%s))" % MRID), ("Position.StopLine", "GetLine(GetStart(%s))" % MRID),
